@@ -196,6 +196,23 @@ def swap_function(src, qual):
     return ast.unparse(tree) if changed else None
 
 
+def flip_function(src, qual):
+    """mirror every binary comparison `a < b` -> `b > a`, `a == b` -> `b == a` ... (operands without calls): behaviour-preserving"""
+    tree = ast.parse(src)
+    node = _find(tree, qual)
+    if node is None:
+        return None
+    changed = False
+    MIRROR = {ast.Lt: ast.Gt, ast.Gt: ast.Lt, ast.LtE: ast.GtE, ast.GtE: ast.LtE, ast.Eq: ast.Eq, ast.NotEq: ast.NotEq}
+    for n in ast.walk(node):
+        if isinstance(n, ast.Compare) and len(n.ops) == 1 and type(n.ops[0]) in MIRROR and not isinstance(n.comparators[0], ast.Constant) \
+                and not any(isinstance(x, (ast.Call, ast.NamedExpr)) for side in (n.left, n.comparators[0]) for x in ast.walk(side)):
+            n.left, n.comparators[0] = n.comparators[0], n.left
+            n.ops[0] = MIRROR[type(n.ops[0])]()
+            changed = True
+    return ast.unparse(tree) if changed else None
+
+
 def mutants_of(src, qual, limit=12):
     """Behaviour-CHANGING single-point mutants of one function (statement deleted, comparison flipped, arithmetic operator swapped,
     boolean operator swapped, constant perturbed).  Used only to harden the analysers: a mutant may legitimately be ok / violation /
@@ -296,7 +313,7 @@ def one(args):
     tmp = None
     try:
         src = open(os.path.join(repo, rel)).read()
-        new = {"temp": temp_function, "inline": inline_function, "swap": swap_function}.get(mode, rename_function)(src, qual)
+        new = {"temp": temp_function, "inline": inline_function, "swap": swap_function, "flip": flip_function}.get(mode, rename_function)(src, qual)
         if new is None:
             return qual, "skipped", ""
         try:
